@@ -1,6 +1,7 @@
 package main
 
 import (
+	"os"
 	"fmt"
 	"strings"
 
@@ -222,6 +223,59 @@ func (it *Interp) catcher(env *zygo.Zlisp, args []zygo.Sexp) (zygo.Sexp, error) 
 	return args[0], nil
 }
 
+// A text that starts with the comment line "//via:NAME" is not given to EvalString but to another
+// entry point of the Go API, called at rest (the comment keeps the text a valid source text).
+func splitVia(src string) (via, body string, ok bool) {
+	if !strings.HasPrefix(src, "//via:") {
+		return "", src, false
+	}
+	nl := strings.IndexByte(src, '\n')
+	if nl < 0 {
+		return "", src, false
+	}
+	return src[len("//via:"):nl], src[nl+1:], true
+}
+
+var viaNames = []string{"source-stream", "source-file", "load-stream", "load-file", "apply"}
+
+func (it *Interp) evalVia(env *zygo.Zlisp, via, body string) (zygo.Sexp, error) {
+	switch via {
+	case "source-stream": // source.go:SourceStream -> SourceExpressions (runs the text as a function __source)
+		return zygo.SexpNull, env.SourceStream(strings.NewReader(body))
+	case "source-file":
+		f, err := os.CreateTemp("", "c05-src-*.zy")
+		if err != nil {
+			return zygo.SexpNull, fmt.Errorf("c05-harness: %v", err)
+		}
+		defer os.Remove(f.Name())
+		f.WriteString(body)
+		f.Seek(0, 0)
+		defer f.Close()
+		return zygo.SexpNull, env.SourceFile(f)
+	case "load-stream":
+		if err := env.LoadStream(strings.NewReader(body)); err != nil {
+			return zygo.SexpNull, err
+		}
+		return env.Run()
+	case "load-file":
+		if err := env.LoadFile(strings.NewReader(body)); err != nil {
+			return zygo.SexpNull, err
+		}
+		return env.Run()
+	case "apply": // the host calls a script function directly: the text evaluates to the function
+		fv, err := env.EvalString(body)
+		if err != nil {
+			return zygo.SexpNull, err
+		}
+		fn, ok := fv.(*zygo.SexpFunction)
+		if !ok {
+			return zygo.SexpNull, fmt.Errorf("c05-harness: not a function: %T", fv)
+		}
+		return env.Apply(fn, nil)
+	}
+	return zygo.SexpNull, fmt.Errorf("c05-harness: unknown entry point %q", via)
+}
+
 func short(err error) string {
 	s := strings.ReplaceAll(err.Error(), "\n", " ")
 	// keep the text free of the phrases refgen.ErrClass keys on
@@ -283,7 +337,9 @@ func (it *Interp) evalOn(env *zygo.Zlisp, src string) (obs string) {
 	}()
 	var v zygo.Sexp
 	var err error
-	if it.LoadRun {
+	if via, body, ok := splitVia(src); ok {
+		v, err = it.evalVia(env, via, body)
+	} else if it.LoadRun {
 		// the second entry point: LoadString (parse + compile), then Run
 		if err = env.LoadString(src); err == nil {
 			v, err = env.Run()
